@@ -63,3 +63,21 @@ prop("C04", [
     assumptions=COMMON_ASSUME + ["pipelined requests (two requests in one read) are outside the alphabet: the "
                                  "server discards the buffer on completion by design"],
     bounds={"quick": "all sequences of length <= 2", "thorough": "all sequences of length <= 3"})
+
+prop("C05", [
+    {"name": "c05_wire", "sources": ["c05_wire.cc"], "flavour": "asan",
+     "args": {"quick": ["--Kops=2", "--timeout-ms=30000", "--deadline-s=170"],
+              "thorough": ["--thorough=1", "--Kops=3", "--timeout-ms=120000", "--deadline-s=1500"]}},
+],
+    rule="(A) one case = (status code, header set, cookie set): ResponseWriter::send for every body length of the "
+         "range, and for a thinned set of lengths also maxResponseSize in {total-1,total,total+1,512,1024}; (B) one "
+         "case = one ResponseStream program (all sequences up to Kops of write / <<const char* / <<int over the size "
+         "and value alphabets, flush after any subset) x streamSize {1,64,512}; (C) one case = one client request "
+         "built with RequestBuilder and serialised by the real writeRequest; bytes are captured at the peer end of a "
+         "socketpair behind the real transport loop and judged by an independent RFC 7230 reader (exactly one "
+         "message, status, header multiset incl. framing header exactly once, body/chunks equal data written, "
+         "reported size, refusal emits nothing); evaluations = messages emitted; transitions = event-loop steps; "
+         "non-trivial = distinct specs with a limit near the size / stream programs / requests",
+    assumptions=COMMON_ASSUME + ["ResponseStream << (u)int8_t is outside the value alphabet (it is written as a character)"],
+    bounds={"quick": "5 codes, body lengths 0..600,1000..1100,2000..2100, stream programs <= 2 ops",
+            "thorough": "64 codes, body lengths 0..2200, stream programs <= 3 ops (until the deadline)"})
